@@ -50,7 +50,7 @@ PROPS = {
     'C16': dict(k2=[('walk', {'c', 'p', 'trace'}), ('refuse', {'c', 'p', 'trace'}), ('conv', {'c', 'p'})], k1=[]),
     'C17': dict(k2=[], k1=['struct'], k3=['nostd']),
     'C18': dict(k2=[], k1=[], k3=['rename']),
-    'C19': dict(k2=[('abandon', ALL)], k1=[]),
+    'C19': dict(k2=[('abandon', ALL), ('refuse', ALL)], k1=[]),
 }
 
 
